@@ -41,7 +41,8 @@ impl ToPy for TrueName {
 impl ToPy for StringName {
     fn to_py(&self, imp: &mut Imports) -> Core {
         match self.name.as_str() {
-            clss::UNION => self
+            // Without members it can only be a user class that happens to be called Union.
+            clss::UNION if !self.generics.is_empty() => self
                 .generics
                 .iter()
                 .sorted()
